@@ -19,7 +19,7 @@ ASSUMPTIONS = ["the averages behind the pattern thresholds may either include th
                "prices in the pattern / invariance cases are multiples of 1/64 below 2^30 so that scaling and shifting are exact in binary floating point; "
                "indices whose threshold comparison is within 1e-8 of equality are skipped for non-power-of-two factors and for shifts",
                "`cross` (either direction) is not listed in the statement and is only covered by C16"]
-PARTIAL = ""
+PARTIAL = 'strictness/extreme statements assume a strict weak order on the carrier (holds for exact fields and ints; IEEE NaN excluded); scale/shift invariance over exact fields'
 
 
 def oracle(ctx):
